@@ -308,6 +308,10 @@ def run(ck, F):
     # size / emptiness / begin-end of a scope are those of its store of declarations
     import c09 as _c09
     _c09.scope_size_rule(ck, F, 'C15')
+    # equality of basic specifiers / qualifiers is identity of their logogram: it holds exactly for equal spellings only if equal
+    # spellings are one Logogram node (the constructor of logograms finds before it inserts)
+    import borrow as _borrow
+    _borrow.borrow(ck, F, 'C04', 'C15', {'NAMING'}, only=lambda inst: 'logogram' in inst.lower())
     import words as _words
     _W, _kw, _strays = _words.static_words_outside_table(F)
     R_tab_only = ck.rule('C15.static-words-in-the-table', 'every statically allocated word (an object of the class of the reserved-word table\'s '
